@@ -48,6 +48,10 @@ def ret_name(n):
 # running op lines with crash recovery
 # ----------------------------------------------------------------------------------------------------------------------
 
+HITS = {"n": 0}     # aborts + watchdog hits over all chunks of a run (threads of par_map share it)
+HITS_MAX = 12
+
+
 def run_chunk(exe, lines, env=None, pre=(), timeout=3000):
     """Feed lines; returns list of (line, result line or None, stderr if the process died on that line)."""
     res = []
@@ -57,6 +61,8 @@ def run_chunk(exe, lines, env=None, pre=(), timeout=3000):
     if env:
         e.update(env)
     while i < len(lines):
+        if HITS["n"] >= HITS_MAX:
+            break                         # plenty of replays already; every further abort/watchdog only costs time
         rc, out, err = vlib.run_lines(list(pre) + [exe], lines[i:], timeout=timeout, env=e)
         out = out[:len(lines) - i]
         for k, o in enumerate(out):
@@ -68,11 +74,13 @@ def run_chunk(exe, lines, env=None, pre=(), timeout=3000):
                 res.append((None, None, "exit code %d after all ops\n%s" % (rc, err)))
             break
         if out and "why=watchdog" in out[-1]:
+            HITS["n"] += 1
             continue                      # the watchdog line answers its op; go on with the rest
         # the op at index i killed the process
         res.append((lines[i], None, "exit code %d\n%s" % (rc, err)))
         i += 1
         ncrash += 1
+        HITS["n"] += 1
         if ncrash >= 4:
             break                         # enough replays from this chunk; restarting after every abort is slow
     return res
@@ -231,6 +239,44 @@ def op_line(rng, ep, data, fmt=None, dual=True):
     return "%s %s %d %d %d %d %d %s" % (cmd, ep, seed, p[0], p[1], p[2], p[3], vlib.hexs(data))
 
 
+def benign_ops(ctx, corpus, plain):
+    """Non-vacuity: every valid input (generated by the real encoders, or tests/files/good-*) given to its own decoder
+    with harmless parameters must be decoded completely, under whatever slicing the seed picks.
+    Returns list of (op line, expected final lzma_ret)."""
+    rng = ctx.rng
+    out = []
+    for fmt in sorted(corpus):
+        for name, data in corpus[fmt]:
+            if not (name.startswith("gen-") or name.startswith("tests/files/good-")) or "#" in name:
+                continue
+            if len(data) > 30000:
+                continue
+            seed = rng.getrandbits(48)
+            def ln(ep, p, cmd="run2"):
+                return "%s %s %d %d %d %d %d %s" % (cmd, ep, seed, p[0], p[1], p[2], p[3], vlib.hexs(data))
+            if fmt == "xz":
+                out.append((ln("stream", (0, U64, 0, 0)), 1))
+                out.append((ln("mt", (0, U64, rng.choice((1, 2, 4)), U64), "run"), 1))
+                out.append((ln("fileinfo", (0, U64, 0, 0)), 1))
+                out.append((ln("sbuf", (0, U64, 0, 0)), 0))
+            elif fmt == "lzma":
+                out.append((ln("alone", (0, U64, 0, 0)), 1))
+                out.append((ln("auto", (0, U64, 0, 0)), 1))
+            elif fmt == "lz":
+                out.append((ln("lzip", (0, U64, 0, 0)), 1))
+            elif fmt.startswith("raw:") and name in plain:
+                out.append((ln("raw", (int(fmt[4:]), len(plain[name]), 0, 0)), 1))
+            elif fmt == "micro" and name in plain:
+                out.append((ln("micro", (0, len(plain[name]), 1, 4096)), 1))
+            elif fmt.startswith("block:") and name in plain:
+                out.append((ln("block", (int(fmt[6:]), 0, 0, 0)), 1))
+                out.append((ln("bbuf", (int(fmt[6:]), 0, 0, 0)), 0))
+            elif fmt == "index" and name in plain:
+                out.append((ln("index", (0, U64, 0, 0)), 1))
+                out.append((ln("ibuf", (0, U64, 0, 0)), 0))
+    return out
+
+
 def native_eps(fmt):
     if fmt in EP_OF:
         return EP_OF[fmt]
@@ -281,6 +327,11 @@ def gen_ops(ctx, corpus, target):
     for b in L.noise(rng, quick):
         for ep in rng.sample(ALL_EPS, 3):
             emit(ep, b, None, "noise")
+    # 4b. valid containers around noise payloads (the symbol decoders, dictionary copies and LZMA2 chunk logic on arbitrary data)
+    for fmt, b in L.decoder_noise(rng, quick):
+        eps = native_eps(fmt)
+        for ep in sorted(set(eps)):
+            emit(ep, b, fmt, "decoder-noise")
     # 5. structure-aware mutations until the target is reached
     weights = []
     for fmt in fmts:
@@ -345,7 +396,9 @@ def judge(ctx, results, stage):
                   "input_hex": t[7] if len(t) > 7 else None,
                   "how_to_replay": "./check C04 --replay <this file>   (or: echo '<op>' | .cache/harness-asan/c04)"}
         if o is None:
-            m = re.search(r"(ERROR: \w+Sanitizer: [^\n]*|runtime error: [^\n]*|Assertion[^\n]*failed[^\n]*|SUMMARY: [^\n]*)", err or "")
+            m = re.search(r"(ERROR: \w+Sanitizer: [^\n]*|runtime error: [^\n]*|Assertion[^\n]*failed[^\n]*|SUMMARY: [^\n]*"
+                          r"|Conditional jump or move depends on uninitialised[^\n]*|Use of uninitialised[^\n]*"
+                          r"|Invalid (?:read|write) of size[^\n]*|Syscall param[^\n]*|[^\n]*definitely lost[^\n]*)", err or "")
             replay.update({"kind": "implementation aborted (sanitizer / assert / crash)", "what": m.group(1) if m else "process died", "stderr": err})
             ctx.count("abort", table="correspondence")
             if nviol < 6:
@@ -377,6 +430,7 @@ def judge(ctx, results, stage):
 def idx_grid(ctx, exe, model_ok):
     """Real macros vs the Lean formulas on a grid (literal_subcoder offset, dict_get index, get_dist_state)."""
     rng = ctx.rng
+    HITS["n"] = 0
     lines = []
     for lc in range(5):
         for lp in range(5 - lc):
@@ -466,17 +520,39 @@ def run(ctx):
     # K: observation engine
     t0 = time.time()
     corpus, plain = build_corpus(ctx, exe)
-    target = 30000 if quick else 400000
+    target = int(os.environ.get("C04_TARGET", 50000 if quick else 400000))   # (C04_TARGET: development knob)
     lines = gen_ops(ctx, corpus, target)
     ctx.log("corpus %d files, %d op lines (%.1fs)" % (sum(len(v) for v in corpus.values()), len(lines), time.time() - t0))
     parts = vlib.chunks(lines, vlib.NCPU * 4)
+    HITS["n"] = 0
     results = vlib.par_map(lambda ls: run_chunk(exe, ls), parts)
     flat = [r for part in results for r in part]
     n_exec = judge(ctx, flat, "observe")
     ctx.cov["correspondence"].update({"op_lines": len(lines), "executions": n_exec, "observer": "ASan+UBSan+assert build, exact-size buffers, "
                                       "counting allocator, watchdog, documented-code / no-progress / seek / determinism checks"})
     ctx.log("observation: %d op lines, %d executions, %.1fs" % (len(lines), n_exec, time.time() - t0))
-    # non-vacuity of the valid inputs: intact generated files must decode in their native decoder
+    # non-vacuity: valid inputs are decoded completely by their own decoder (so the engine is not just watching rejections)
+    ben = benign_ops(ctx, corpus, plain)
+    HITS["n"] = 0
+    bres = [r for part in vlib.par_map(lambda ls: run_chunk(exe, ls), vlib.chunks([l for l, _ in ben], vlib.NCPU)) for r in part]
+    n_exec += judge(ctx, bres, "valid")
+    exp = dict(ben)
+    ok_valid = bad_valid = 0
+    for ln, o, err in bres:
+        if ln is None or o is None or not o.startswith("ok"):
+            continue
+        d = parse_res(o)
+        if d.get("cap") == "1":
+            continue
+        if int(d.get("ret", -1)) == exp[ln]:
+            ok_valid += 1
+        else:
+            bad_valid += 1
+            if bad_valid <= 3:
+                ctx.obligation_broken("non-vacuity: a valid input was not decoded by its own decoder (%s instead of %s)"
+                                      % (ret_name(int(d.get("ret", -1))), ret_name(exp[ln])), ln[:600] + "\n" + o)
+    ctx.cov["correspondence"].update({"valid_inputs_decoded_completely": ok_valid, "valid_inputs_not_decoded": bad_valid,
+                                      "executions": n_exec})
     # K2: index formulas, real macros vs Lean
     idx_grid(ctx, exe, p_ok)
     # thorough: valgrind memcheck on a sample with the non-sanitizer build (uninitialised reads)
@@ -488,6 +564,7 @@ def run(ctx):
             pre = ["valgrind", "-q", "--error-exitcode=98", "--exit-on-first-error=yes", "--leak-check=full", "--errors-for-leak-kinds=definite",
                    "--track-origins=no", "--max-stackframe=4000000"]
             tv = time.time()
+            HITS["n"] = 0
             vres = vlib.par_map(lambda ls: run_chunk(vexe, ls, env={"C04_NOFILL": "1", "C04_CPU": "2000", "C04_WALL": "3000"}, pre=pre), vparts)
             vflat = [r for part in vres for r in part]
             nv = judge(ctx, vflat, "memcheck")
